@@ -37,15 +37,16 @@ class StopWalk(Exception):
 class FakeRandom:
     """Stands in for the `random` module.  Every draw is taken from `src` and recorded."""
 
-    def __init__(self, src, max_choices=None, script=None):
+    def __init__(self, src, max_choices=None, script=None, draw_budget=200000):
         self.src = src
+        self.draw_budget = draw_budget
         self.log = []  # ("randint", a, b, v) | ("choice", n, real_index, model_index)
         self.max_choices = max_choices
         self.nchoices = 0
         self.script = list(script) if script is not None else None  # forced randint values (replay)
 
     def randint(self, a, b):
-        if len(self.log) > 200000:
+        if len(self.log) > self.draw_budget:
             raise StopWalk("draw budget exhausted")
         if self.script is not None:
             if not self.script:
@@ -240,6 +241,40 @@ def oracle_inv(h, w, args, blocks):
     return oracle_part(h, w, blocks) or oracle_bounds_ok(h, w, args, blocks)
 
 
+def _short_args(args):
+    a = dict(args)
+    ib = a.get("initial_blocks")
+    if ib is not None and sum(len(b) for b in ib) > 40:
+        a["initial_blocks"] = "<%d blocks, see the replay data>" % len(ib)
+    return a
+
+
+def _twice(blocks):
+    seen, dup = set(), []
+    for b in blocks:
+        for c in b:
+            if c in seen and c not in dup:
+                dup.append(c)
+            seen.add(c)
+    return dup
+
+
+def _short_value(v):
+    if sum(len(b) for b in v) <= 40:
+        return repr(v)
+    dup = _twice(v)
+    return "<%d blocks, %d cells%s>" % (len(v), sum(len(b) for b in v),
+                                        (", cells in more than one block: %s" % dup[:6]) if dup else "")
+
+
+def say_update(h, w, args, u, cur, nxt, bad):
+    return f"{h}x{w} {_short_args(args)}: update {u} proposed for {_short_value(cur)} gives {_short_value(nxt)}: {bad}"
+
+
+def say_initial(h, w, args, res, bad):
+    return f"initial() of {h}x{w} {_short_args(args)} returned {_short_value(res)}: {bad}"
+
+
 # ---------------------------------------------------------------------
 # input generation
 
@@ -345,14 +380,138 @@ def malformed_blocks(rng, h, w, good):
 
 
 # ---------------------------------------------------------------------
+# large values (boards of 17x17 and more, values of more than 257 blocks, coordinates above 256)
+#
+# Everything above runs on boards <= 6x6, where block indices, block lengths and coordinates are all small numbers.
+# CPython treats the integers -5..256 specially (one shared object each), dict/set/list implementations change strategy
+# with size, and `visit` recurses once per cell: code that is right on every small board can be wrong on a large one.
+
+SMALL_INT_MAX = 256
+
+
+def update_kind(u):
+    return "merge" if is_merge(u) else ("split" if len(u[0]) == 1 else "move")
+
+
+def edge_updates(cands, per_kind=3):
+    """Indices of the proposed updates that are always checked on a large value: per kind of update those replacing
+    the blocks at the highest and at the lowest list indices, those replacing a block at index 255..258, and the
+    first and the last proposal."""
+    if not cands:
+        return []
+    picks = {0, len(cands) - 1}
+    by_kind = {}
+    for k, u in enumerate(cands):
+        if u[0]:
+            by_kind.setdefault(update_kind(u), []).append(k)
+    for kind, ks in by_kind.items():
+        hi = sorted(ks, key=lambda k: (-max(cands[k][0]), -min(cands[k][0]), k))
+        lo = sorted(ks, key=lambda k: (min(cands[k][0]), max(cands[k][0]), k))
+        picks.update(hi[:per_kind])
+        picks.update(lo[:per_kind])
+        near = [k for k in ks if any(SMALL_INT_MAX - 1 <= i <= SMALL_INT_MAX + 2 for i in cands[k][0])]
+        picks.update(near[:2 * per_kind])
+        both = [k for k in ks if min(cands[k][0]) > SMALL_INT_MAX]
+        picks.update(both[:per_kind])
+    return sorted(picks)
+
+
+def small_block_partition(rng, h, w, weights):
+    """A partition of the board into connected blocks of size <= len(weights) (size s drawn with weight weights[s-1]),
+    grown cell by cell from the unassigned cells in row order; independent of the builder."""
+    owner = {}
+    blocks = []
+    sizes = list(range(1, len(weights) + 1))
+    for y in range(h):
+        for x in range(w):
+            if (y, x) in owner:
+                continue
+            want = rng.choices(sizes, weights)[0]
+            blk = [(y, x)]
+            owner[(y, x)] = len(blocks)
+            while len(blk) < want:
+                free = [n for (cy, cx) in blk for n in ((cy + 1, cx), (cy - 1, cx), (cy, cx + 1), (cy, cx - 1))
+                        if 0 <= n[0] < h and 0 <= n[1] < w and n not in owner]
+                if not free:
+                    break
+                n = rng.choice(free)
+                owner[n] = len(blocks)
+                blk.append(n)
+            blocks.append(blk)
+    return blocks
+
+
+def singletons_checkerboard(h, w):
+    """One block per cell; the cells with even y+x first: no two blocks at the first ceil(h*w/2) indices are adjacent."""
+    cells = [(y, x) for y in range(h) for x in range(w)]
+    return [[c] for c in cells if (c[0] + c[1]) % 2 == 0] + [[c] for c in cells if (c[0] + c[1]) % 2 == 1]
+
+
+def large_cases(rng, thorough=False):
+    """(label, h, w, args, steps, model, max_rounds): a handful of walks on large values.  `model` says whether the Lean
+    model is asked too (measured: ~0.02 s per candidates() query on values of small blocks, 8 s on one 260-cell block)."""
+    cases = []
+    # 17x17, more than 257 blocks, bounds met from the start
+    k = rng.randint(266, 276)
+    ib = random_partition(rng, 17, 17, k)
+    cases.append(("17x17:min_num_blocks=265", 17, 17, {"min_num_blocks": 265, "initial_blocks": ib}, 4, True, 150))
+    # 18x18, small blocks, the blocks of more than one cell at the END of the list (indices >= 257): initial() has to split
+    # until min_num_blocks is met, so every round of its own walk replaces a block at a high index
+    for _ in range(50):
+        ib = small_block_partition(rng, 18, 18, [93, 5, 2])
+        if sum(1 for blk in ib if len(blk) == 1) > SMALL_INT_MAX + 1 and sum(1 for blk in ib if len(blk) > 1) >= 8:
+            break
+    ib.sort(key=len)
+    args = {"min_num_blocks": len(ib) + rng.randint(3, 5), "max_block_size": 3, "initial_blocks": ib}
+    cases.append(("18x18:small-blocks,initial-splits", 18, 18, args, 3, True, 80))
+    # 18x18, many small blocks in random order, bounds met
+    ib = small_block_partition(rng, 18, 18, [88, 9, 3])
+    rng.shuffle(ib)
+    cases.append(("18x18:small-blocks", 18, 18, {"max_block_size": 3, "min_block_size": rng.choice([None, 1]),
+                                                 "initial_blocks": ib}, 4, True, 80))
+    # 23x23, one block per cell, no two of the first 265 blocks adjacent: initial() has to merge, each merge involves a
+    # block at an index >= 265
+    ib = singletons_checkerboard(23, 23)
+    cases.append(("23x23:singletons,initial-merges", 23, 23, {"max_num_blocks": 23 * 23 - rng.randint(3, 5), "initial_blocks": ib},
+                  2, True, 80))
+    # 1x330 strip: coordinates above 256 as well
+    ib = small_block_partition(rng, 1, 330, [85, 15])
+    if rng.random() < 0.5:
+        ib.reverse()
+    cases.append(("1x330:strip", 1, 330, {"max_block_size": 2, "max_num_blocks": len(ib) - rng.randint(0, 3), "initial_blocks": ib},
+                  3, True, 80))
+    # 2x130: ONE block of 260 cells (block length and seed indices above 256); the model needs seconds per query here
+    cases.append(("2x130:one-block", 2, 130, {"min_block_size": rng.choice([None, 2])}, 1, thorough, 80))
+    if thorough:
+        # the whole walk of initial() from the single 289-cell block down to 265 blocks (seconds; oracle only)
+        cases.append(("17x17:min_num_blocks=265,from-one-block", 17, 17, {"min_num_blocks": 265}, 3, False, 20000))
+    return cases
+
+
+def large_walks(ctx, model=True, check_all=30):
+    walks = []
+    for (label, h, w, args, steps, with_model, max_rounds) in large_cases(ctx.rng, thorough=not ctx.quick()):
+        wk = Walk(ctx, h, w, args, steps, ctx.rng, check_all=check_all, max_rounds=max_rounds, model=model and with_model,
+                  edges=True)
+        wk.run()
+        ctx.count("large:" + label + (":model+oracle" if wk.model else ":oracle-only"))
+        walks.append(wk)
+    return walks
+
+
+# ---------------------------------------------------------------------
 # one walk on the real code
 
 
 class Walk:
     """Runs the real builder, collects the model queries, checks the oracle and the no-mutation clause."""
 
-    def __init__(self, ctx, h, w, args, steps, rng, check_all=20):
+    def __init__(self, ctx, h, w, args, steps, rng, check_all=20, max_rounds=150, model=True, edges=False):
         self.ctx, self.h, self.w, self.args, self.steps, self.rng = ctx, h, w, args, steps, rng
+        self.draw_budget = 200000 if not edges else 5000000  # random draws allowed inside initial()
+        self.max_rounds = max_rounds  # rounds of initial()'s own walk before it is stopped ("running")
+        self.model = model  # False: oracle only (the naive Lean model is too slow on this input)
+        self.edges = edges  # large values: always check / prefer the updates that replace blocks at high list indices
         self.queries = []  # (line, expected canonical, kind, detail)
         self.problems = []  # (signature, what, data)
         self.check_all = check_all
@@ -360,6 +519,8 @@ class Walk:
         self.kinds = {}
 
     def q(self, line, expected, kind, detail):
+        if not self.model:
+            return
         self.queries.append((sx(line), to_str(expected), kind, detail))
 
     def problem(self, sig, what, data):
@@ -369,7 +530,9 @@ class Walk:
         return {"h": self.h, "w": self.w, "args": self.args}
 
     # -- initial() -----------------------------------------------------
-    def run_initial(self, max_rounds=150):
+    def run_initial(self, max_rounds=None):
+        if max_rounds is None:
+            max_rounds = self.max_rounds
         b = mk_builder(self.h, self.w, self.args)
         ib_snapshot = copy.deepcopy(self.args.get("initial_blocks"))
         seen_states = []
@@ -379,7 +542,7 @@ class Walk:
             seen_states.append(copy.deepcopy(cur))
             return orig(cur)
         b.candidates = spy
-        fake = FakeRandom(self.rng, max_choices=max_rounds)
+        fake = FakeRandom(self.rng, max_choices=max_rounds, draw_budget=self.draw_budget)
         outcome = None
         with patched_random(fake):
             try:
@@ -440,7 +603,7 @@ class Walk:
         """Oracle on (a sample of) all proposed updates + the no-mutation clause."""
         idxs = list(range(len(cands)))
         if self.check_all is not None and len(idxs) > self.check_all:
-            idxs = sorted(self.rng.sample(idxs, self.check_all))
+            idxs = sorted(set(self.rng.sample(idxs, self.check_all)) | (set(edge_updates(cands)) if self.edges else set()))
         snap = copy.deepcopy(cur)
         for k in idxs:
             u = cands[k]
@@ -450,7 +613,7 @@ class Walk:
                 bad = oracle_bounds_ok(self.h, self.w, self.args, nxt)
             if bad:
                 self.problem("invariant:" + bad,
-                             f"{self.h}x{self.w} {self.args}: update {u} proposed for {cur} gives {nxt}: {bad}",
+                             say_update(self.h, self.w, self.args, u, cur, nxt, bad),
                              dict(self.base(), state=canon_blocks(snap), draws=rawvals, cand=k, bad=bad))
             if cur != snap:
                 self.problem("purity:previous-modified",
@@ -488,15 +651,17 @@ class Walk:
         history = []  # (live object, snapshot)
         inv = oracle_inv(self.h, self.w, self.args, cur)
         part = oracle_part(self.h, self.w, cur)
-        given = self.args.get("initial_blocks") is not None
+        # only MALFORMED initial_blocks excuse an invalid result; from a valid partition initial() must return a valid value
+        ib = self.args.get("initial_blocks")
+        given = ib is not None and oracle_part(self.h, self.w, ib) is not None
         if self.h * self.w == 0:
             self.ctx.count("initial:degenerate-board")
         elif not self.args.get("allow_unmet_constraints_first") and inv is not None and not (given and part is not None):
-            self.problem("initial:" + inv, f"initial() of {self.h}x{self.w} {self.args} returned {cur}: {inv}",
+            self.problem("initial:" + inv, say_initial(self.h, self.w, self.args, cur, inv),
                          dict(self.base(), initial=True, bad=inv))
         if part is not None and not given:
             if self.h * self.w > 0:
-                self.problem("initial:" + part, f"initial() of {self.h}x{self.w} {self.args} returned {cur}: {part}",
+                self.problem("initial:" + part, say_initial(self.h, self.w, self.args, cur, part),
                              dict(self.base(), initial=True, bad=part))
         for step in range(self.steps):
             history.append((cur, copy.deepcopy(cur)))
@@ -535,6 +700,11 @@ class Walk:
             if part_ok:
                 self.step_checks(b, cur, cands, rawvals, inv_ok)
             k = self.rng.randrange(len(cands))
+            if self.edges and self.rng.random() < 0.7:
+                high = [i for i, c in enumerate(cands) if c[0] and max(c[0]) > SMALL_INT_MAX]
+                if high:
+                    k = self.rng.choice(high)
+                    ctx.count("applied:replaces-block-at-index>256")
             u = cands[k]
             kind = "merge" if is_merge(u) else ("split" if len(u[0]) == 1 else "move")
             ctx.count("applied:" + kind)
@@ -734,9 +904,15 @@ def correspond(ctx):
         "the Lean model; compared per step: candidates() (merge part as a set, split/move parts in order), "
         "copy_with_update(), initial(), and direct split_block()/_is_connected() calls; an independent oracle checks "
         "partition / connectivity / bounds of every proposed update (sampled above 20 per state) and that no earlier value "
-        "is modified, also when the returned value is mutated afterwards; a case = one candidates() call, non-trivial when "
+        "is modified, also when the returned value is mutated afterwards; plus a handful of walks on LARGE values per run "
+        "(17x17 with min_num_blocks=265, 18x18 with ~290 blocks of <= 3 cells where initial() has to split blocks sitting at "
+        "list indices >= 257, 23x23 with one block per cell where initial() has to merge, a 1x330 strip, one 260-cell block "
+        "on 2x130 [oracle only in the quick tier: the model needs seconds per query there]; on each the updates replacing "
+        "the blocks at the highest / lowest indices and at indices 255..258 are always among those checked, and the model "
+        "is compared as on the small boards); a case = one candidates() call, non-trivial when "
         "it proposes at least one update, distinct by (board, configuration, state)")
     walks = gen_walks(ctx, ctx.n(600, 5000), 60, 6, check_all=ctx.n(20, 40))
+    walks += large_walks(ctx, model=True, check_all=ctx.n(30, 60))
     compare(ctx, walks)
     ctx.c18_problems = []
     for wk in walks:
@@ -881,6 +1057,13 @@ def search(ctx, why, depth=4, cap=400000, walks=None):
         if f is not None:
             add(f.signature, f.what, f.data)
 
+    # 0b. large values (more than 257 blocks, coordinates / block lengths above 256): oracle only, many more of the
+    # proposed updates per state than the correspondence run checks
+    for wk in large_walks(ctx, model=False, check_all=250):
+        for (sig, what, data) in wk.problems:
+            if data is not None:
+                add(sig, what, data)
+
     # 1. exhaustive: every state reachable within `depth` updates on boards <= 3x3
     total = 0
     for h in range(1, 4):
@@ -899,7 +1082,7 @@ def search(ctx, why, depth=4, cap=400000, walks=None):
                         continue
                 bad = oracle_inv(h, w, args, start)
                 if bad:
-                    add("initial:" + bad, f"initial() of {h}x{w} {args} returned {start}: {bad}",
+                    add("initial:" + bad, say_initial(h, w, args, start, bad),
                         {"h": h, "w": w, "args": args, "initial": True, "bad": bad})
                     continue
                 frontier = [start]
@@ -925,7 +1108,7 @@ def search(ctx, why, depth=4, cap=400000, walks=None):
                             bad, nxt = check_update(h, w, args, b, cur, u)
                             if bad:
                                 add("invariant:" + bad if "previous" not in bad else "purity:" + bad,
-                                    f"{h}x{w} {args}: update {u} proposed for {cur} gives {nxt}: {bad}",
+                                    say_update(h, w, args, u, cur, nxt, bad),
                                     {"h": h, "w": w, "args": args, "state": canon_blocks(cur), "draws": vals, "cand": k, "bad": bad})
                                 continue
                             r = repr(nxt)
@@ -961,7 +1144,7 @@ def search(ctx, why, depth=4, cap=400000, walks=None):
                 bad, nxt = check_update(h, w, args, b, cur, u)
                 if bad:
                     add("invariant:" + bad if "previous" not in bad else "purity:" + bad,
-                        f"{h}x{w} {args}: update {u} proposed for {cur} gives {nxt}: {bad}",
+                        say_update(h, w, args, u, cur, nxt, bad),
                         {"h": h, "w": w, "args": args, "state": canon_blocks(cur), "draws": vals, "cand": k, "bad": bad})
     # 3. random walks with the oracle on every proposed update (larger boards, deeper)
     nw = ctx.n(150, 1500) if walks is None else walks
@@ -1014,7 +1197,7 @@ def replay(ctx, data):
                     continue
             bad = oracle_inv(h, w, args, res)
             if bad:
-                return Finding("initial:" + bad, f"initial() of {h}x{w} {args} returned {res}: {bad}", data)
+                return Finding("initial:" + bad, say_initial(h, w, args, res, bad), data)
         return None
     if "state" not in data:
         return None
@@ -1039,5 +1222,5 @@ def replay(ctx, data):
     bad, nxt = check_update(h, w, args, b, cur, cands[k], inv_before)
     if bad:
         sig = ("purity:" if "previous" in bad else "invariant:") + bad
-        return Finding(sig, f"{h}x{w} {args}: update {cands[k]} proposed for {cur} gives {nxt}: {bad}", data)
+        return Finding(sig, say_update(h, w, args, cands[k], cur, nxt, bad), data)
     return None
